@@ -37,6 +37,7 @@ Class(proto, r) ==
   CASE r.kind = "none" -> "none"
     [] r.kind = "hold" -> "aborted"       \* request held by the collector until the client abandoned it
     [] r.kind = "tmpnet" -> "retryable"   \* no answer within the client's per-attempt timeout: temporary network error
+    [] r.kind = "hung" -> "retryable"     \* gRPC: no answer until the export timeout (DEADLINE_EXCEEDED on the client)
     [] r.kind = "close" -> "either"       \* connection closed without an answer: the statement leaves it open
     [] r.kind = "status" /\ proto = "http" ->
          IF r.code >= 200 /\ r.code <= 299 THEN (IF r.partial THEN "partial" ELSE "success")
@@ -54,7 +55,12 @@ Throttle(proto, r) ==
 NoWant == [valid |-> FALSE, attempts |-> 0, err |-> FALSE, handled |-> 0, clock |-> 0]
 
 (* cfg: [proto, enabled, maxel (0 = no limit), boffmax (largest possible backoff interval),
-         tol (tolerance of the soft clauses), atto (short per-attempt client timeout, 0 = none), tick, want] *)
+         tol (tolerance of the soft clauses), atto (short per-attempt client timeout of an HTTP exporter, 0 = none),
+         cto (short export timeout of a gRPC exporter: bounds the whole call, 0 = none), tick, want,
+         nhdr (number of configured headers), enc (configured content encoding), grp]
+   nhdr / enc (and, invisible here, whether options or the environment configured the exporter and whether a timeout
+   was given explicitly) are the exporter-option dimension: NO clause below depends on them, except that the
+   configured headers and encoding themselves must accompany every attempt. *)
 Fresh(cfg) == [cfg |-> cfg,
                callT |-> -1,
                n |-> 0,              \* attempts seen by the collector
@@ -74,13 +80,14 @@ OnStop(m, e) == [m EXCEPT !.stopMissed = @ \/ e.k # m.n,
                           !.stopRaced = @ \/ (m.ret = "none" /\ m.n > 0 /\ m.answered
                                                /\ Class(m.cfg.proto, m.last) \in {"success", "partial", "final"})]
 Delivered(m) == m.cfg.atto = 0 \/ m.last.acked     \* the client really received the last response
+Expired(m, el) == m.cfg.cto # 0 /\ el >= m.cfg.cto   \* the export timeout of the whole call may have fired
 CurClass(m) == IF m.n = 0 THEN "none" ELSE IF ~m.answered THEN "aborted" ELSE Class(m.cfg.proto, m.last)
 CurThr(m) == IF m.n = 0 \/ ~m.answered \/ ~Delivered(m) THEN 0 ELSE Throttle(m.cfg.proto, m.last)
 
 (* scenarios with a short per-attempt client timeout (needed to produce temporary network errors): on a loaded
    machine the client can time out on an answer the collector did serve in time (even after its first byte arrived),
    so every clause that depends on what the client received is only believed when it repeats (soft) *)
-Flaky(m) == m.cfg.atto # 0
+Flaky(m) == m.cfg.atto # 0 \/ m.cfg.cto # 0
 V(kind, soft, m, extra) == [kind |-> kind, soft |-> soft, proto |-> m.cfg.proto, n |-> m.n, code |-> m.last.code,
                             lastkind |-> m.last.kind, ri |-> m.last.ri, thr |-> m.last.thr, x |-> extra]
 
@@ -93,6 +100,8 @@ OnAttempt(m, e) ==
       retry == m.n > 0
   IN <<m2,
        (IF e.n # m.n + 1 THEN {V("x-harness-numbering", FALSE, m, e.n)} ELSE {})
+       \cup (IF e.hdr # c.nhdr THEN {V("headers-missing", FALSE, m2, e.hdr)} ELSE {})
+       \cup (IF e.enc # c.enc THEN {V("encoding-differs", FALSE, m2, 0)} ELSE {})
        \cup (IF retry /\ ~c.enabled THEN {V("retry-when-disabled", FALSE, m, 0)} ELSE {})
        \cup (IF retry /\ c.enabled /\ cls \in {"success", "partial", "final"} /\ Delivered(m)
                THEN {V("retry-after-nonretryable", Flaky(m), m, 0)} ELSE {})
@@ -110,23 +119,24 @@ OnRet(m, e) ==
       thr == CurThr(m)
       c == m.cfg
       el == e.t - m.callT           \* over-estimate of the time the retry loop can have measured
-      lastDur == IF m.n = 0 THEN 0 ELSE Max(IF m.answered THEN m.last.t - m.lastAttT ELSE 0, c.atto)
+      lastDur == IF m.n = 0 THEN 0 ELSE Max(Max(IF m.answered THEN m.last.t - m.lastAttT ELSE 0, c.atto), c.cto)
       setup == IF m.n = 0 THEN 0 ELSE m.firstT - m.callT   \* connection set-up before the first attempt got through
       m2 == [m EXCEPT !.ret = IF e.err THEN "err" ELSE "nil", !.retT = e.t]
   IN <<m2,
        (IF ~e.err /\ cls \notin {"success", "partial"} THEN {V("nil-without-success", FALSE, m, 0)} ELSE {})
-       \cup (IF e.err /\ cls \in {"success", "partial"} /\ ~Stopped(m) /\ Delivered(m)
+       \cup (IF e.err /\ cls \in {"success", "partial"} /\ ~Stopped(m) /\ Delivered(m) /\ ~Expired(m, el)
                THEN {V("error-despite-success", Flaky(m), m, 0)} ELSE {})
-       \cup (IF e.err /\ cls = "final" /\ e.ref # m.n /\ ~Stopped(m) /\ Delivered(m)
+       \cup (IF e.err /\ cls = "final" /\ e.ref # m.n /\ ~Stopped(m) /\ Delivered(m) /\ ~Expired(m, el)
                THEN {V("failure-not-reported", Flaky(m), m, e.ref)} ELSE {})
        \cup (IF ~e.err /\ cls = "partial" /\ m.n \notin m.handled THEN {V("partial-not-reported", FALSE, m, 0)} ELSE {})
        \cup (IF e.err /\ cls = "retryable" /\ c.enabled /\ ~Stopped(m)
-                /\ ~(c.maxel # 0 /\ el + Max(thr, c.boffmax) > c.maxel)
+                /\ ~(c.maxel # 0 /\ el + Max(thr, c.boffmax) > c.maxel) /\ ~Expired(m, el)
                THEN {V("gave-up-early", Flaky(m), m, el)} ELSE {})
        \cup (IF m.cancelT >= 0 /\ e.t - Max(m.cancelT, m.callT) > c.tol
                THEN {V("late-return-after-cancel", TRUE, m, e.t - Max(m.cancelT, m.callT))} ELSE {})
        \cup (IF m.sdRetT >= 0 /\ e.t - m.sdRetT > c.tol THEN {V("late-return-after-shutdown", TRUE, m, e.t - m.sdRetT)} ELSE {})
        \cup (IF cls \in {"success", "partial", "final"} /\ e.t - m.last.t > c.tol THEN {V("late-return", TRUE, m, e.t - m.last.t)} ELSE {})
+       \cup (IF c.cto # 0 /\ el > c.cto + c.tol THEN {V("call-beyond-timeout", TRUE, m, el)} ELSE {})
        \cup (IF c.enabled /\ c.maxel # 0 /\ el > c.maxel + c.boffmax + lastDur + setup + c.tol
                THEN {V("blocked-beyond-max-elapsed", TRUE, m, el)} ELSE {})>>
 
@@ -138,7 +148,7 @@ OnRet(m, e) ==
    final answer was still on its way to the client). *)
 OnEnd(m) ==
   LET w == m.cfg.want
-      comparable == /\ w.valid /\ m.ret # "none" /\ m.sdCallT < 0 /\ ~m.attAfterStop /\ ~m.stopMissed /\ ~m.stopRaced /\ m.cfg.maxel = 0
+      comparable == /\ w.valid /\ m.ret # "none" /\ m.sdCallT < 0 /\ ~m.attAfterStop /\ ~m.stopMissed /\ ~m.stopRaced /\ m.cfg.maxel = 0 /\ m.cfg.cto = 0
       got == [attempts |-> m.n, err |-> (m.ret = "err"), handled |-> Cardinality(m.handled)]
   IN <<m, IF comparable /\ got # [attempts |-> w.attempts, err |-> w.err, handled |-> w.handled]
             THEN {V("prediction-mismatch", Flaky(m), m, w.attempts)} ELSE {}>>
@@ -162,6 +172,11 @@ Step(m, e) ==
     [] e.ev = "ShutdownRet" -> <<[m EXCEPT !.sdRetT = IF m.ret = "none" /\ @ < 0 THEN e.t ELSE @], {}>>
     [] e.ev = "Ret" -> OnRet(m, e)
     [] e.ev = "NoRet" -> <<m, {V("no-return", TRUE, m, 0)}>>
+    [] e.ev = "Gone" ->   \* the collector saw the client abandon attempt e.n, which it never answered
+         <<m, (IF m.cfg.atto # 0 /\ e.n = m.n /\ e.t - m.lastAttT > m.cfg.atto + m.cfg.tol
+                 THEN {V("attempt-beyond-timeout", TRUE, m, e.t - m.lastAttT)} ELSE {})
+              \cup (IF m.cfg.cto # 0 /\ e.t - m.callT > m.cfg.cto + m.cfg.tol
+                      THEN {V("attempt-beyond-timeout", TRUE, m, e.t - m.callT)} ELSE {})>>
     [] e.ev = "End" -> OnEnd(m)
     [] OTHER -> <<m, {}>>
 
